@@ -596,3 +596,6 @@ def replay(ctx, path):
                 rc = 1
     print("replay:", "still failing" if rc else "implementation, both models and reference agree")
     return rc
+
+
+META["level_claimed"]["text"] += (' Added: view_escape_refused (a sub-view path that leaves the view is refused, for every spelling) with the nested-view family (views of views, exhaustive spellings up to 4/5 elements) on the correspondence side.')
